@@ -100,8 +100,8 @@ func (h *Authenticate) Unmarshal(v base.HeaderValue) error {
 
 		realmReceived := false
 
-		for k, rv := range kvs {
-			v := rv
+		for _, k := range sortedKeys(kvs) {
+			v := kvs[k]
 
 			if k == "realm" {
 				h.Realm = v
@@ -121,8 +121,8 @@ func (h *Authenticate) Unmarshal(v base.HeaderValue) error {
 		realmReceived := false
 		nonceReceived := false
 
-		for k, rv := range kvs {
-			v := rv
+		for _, k := range sortedKeys(kvs) {
+			v := kvs[k]
 
 			switch k {
 			case "realm":
